@@ -301,6 +301,10 @@ class OpGen:
                  and t not in (self.schema.query_type, self.schema.mutation_type, self.schema.subscription_type)]
         if not comps:
             return
+        if "frag.many" in self.dirty:
+            # many fragments on few types: base-class chains and diamonds become likely
+            comps = self.rng.sample(comps, min(2, len(comps)))
+            count = self.rng.randrange(5, 10)
         for _ in range(count):
             t = self.rng.choice(comps)
             name = "Frag%s%d" % (self.rng.choice(["Alpha", "beta", "Gamma_x", "URL"]), self.uid())
